@@ -65,14 +65,13 @@ def run(ck, rng, tier):
             meta.append(("xmix", G))
         ck.count("cond %g" % cond)
         ck.count("noise %g" % noise)
-    rc, outs, err = vf.run_driver(exe, "\n".join(lines) + "\n")
-    if rc != 0 or len(outs) != len(meta):
-        ck.broken("driver drv_alg", "rc=%s cases=%d/%d %s" % (rc, len(outs), len(meta), err[-800:]))
-        return
+    outs = vf.run_driver_cases(ck, exe, lines, lambda k: ("MLR", {"case": str(meta[k])[:1500]}))
     checks = vf.Checks()
     cm, cv = vf.coq_mat, vf.coq_vec
     base = None
     for i, (mt, o) in enumerate(zip(meta, outs)):
+        if o is None:
+            continue
         if mt[0] == "base":
             _, X, Y, Xnew, cond, noise, kind = mt
             n, m = X.shape
